@@ -253,6 +253,31 @@ def cancellation_and_timeout(rep: Report, prog: Program) -> None:
     forwarding(RuleView(rep, "R13.7", keep=lambda key, msg: "abort_if" in key or "abort_if" in msg), prog, strict=False)
     rep.floor("R13.7", 100)
 
+    rep.rule("R13.8", "cancellation is never swallowed at the policy layer: on every path of Policy.call/execute and AsyncPolicy.call/execute on which a KeyboardInterrupt, SystemExit, CancelledError or GeneratorExit was raised (by the operation, the retry component or at an await), the entry point ends by raising that very kind - it may tell the breaker on the way, it may not return")
+    from .breaker_flow import ENTRY_POINTS, flow
+
+    F8 = flow(prog, "stated")
+    CANCEL8 = ("KeyboardInterrupt", "SystemExit", "CancelledError", "GeneratorExit")
+    n8 = 0
+    bad8: set = set()
+    for q8 in ENTRY_POINTS:
+        for ex in F8.exits[q8]:
+            steps = F8.interp.witness_path(ex.witness)
+            raised = [st[1] for st in steps if st and st[0] == "raise" and len(st) > 1 and st[1] in CANCEL8]
+            if not raised:
+                continue
+            n8 += 1
+            k8 = raised[-1]
+            rep.instance("R13.8", f"{q8.split(':')[1]}|{k8}|{ex.how}:{ex.kind}")
+            if ex.how == "raise" and ex.kind == k8:
+                rep.ok("R13.8")
+            elif (q8, k8, ex.how, ex.kind) not in bad8:
+                bad8.add((q8, k8, ex.how, ex.kind))
+                rep.fail("R13.8", f"{q8.split(':')[1]}|{k8}|{ex.how}:{ex.kind}", f"{q8}: a {k8} raised during the call ends the entry point by {ex.how} {ex.kind or ''} instead of propagating", where=prog.func(q8).where(), function=q8, path=F8.witness(ex))
+            else:
+                rep.ok("R13.8")
+    rep.floor("R13.8", 16)
+
     rep.rule("R13.5", "_call_with_timeout re-raises what the worker raised unchanged, except the documented future-timeout -> TimeoutError mapping")
     fi = prog.func("redress.policy.runner.sync_core:_call_with_timeout")
     kinds = ("CancelledError", "KeyboardInterrupt", "SystemExit", "AbortRetryError", "OtherException", "TimeoutError")
